@@ -287,7 +287,7 @@ def count_lines(base):
 
 def main(tier, n=None):
     rep = common.Report(PROP, tier, "fault_enumeration", RULE)
-    rep.assumptions = ["one fault at a time", "don't-care: unrecorded directories left behind by a failed restore (gc's job)", "a killed restore may be complete (all rows + all directories) or have no effect on the recorded versions",
+    rep.assumptions = ["one archive fault at a time, alone or on top of the staging leftovers of a killed earlier restore of the intact archive", "don't-care: unrecorded directories left behind by a failed restore (gc's job)", "a killed restore may be complete (all rows + all directories) or have no effect on the recorded versions",
                        "process death only; SQLite's atomic commit is trusted"]
     rng = common.rng_for("c12", common.base_seed())
     cli.warm()
